@@ -218,5 +218,13 @@ M.contract('bridgepoint.interpret.ActionWalker.accept_AssignmentNode', [('self',
            requires={'walker': 'node is not None and node.expression is not None and node.variable_access is not None'},
            ensures={'right-side-first-then-the-target': 'self.trace == old(self.trace) + [node.expression, node.variable_access]',
                     'the-target-receives-the-value-of-the-right-side':
-                    'any(r is not None and len(r.assigned) == len(old(r.assigned)) + 1 and same(r.assigned[len(r.assigned) - 1], evalv(node.expression, n)) for r in anyref("Acc"))'},
+                    'any(r is not None and len(r.assigned) > 0 and same(r.assigned[len(r.assigned) - 1], evalv(node.expression, n)) for r in anyref("Acc"))'},
            modifies=['self.trace', 'Acc.fgetv', 'Acc.truth', 'Acc.assigned'])
+
+# ---- what a child may do besides being recorded: install symbols, act on the population, assign through a setter.  The induction
+# hypothesis does not freeze these (a block nested in an `if` creates, relates, assigns); every handler that evaluates children carries
+# the same licence, so that none of them is "proved" to leave the model or the symbol table alone.
+EFFECTS = ['SymbolTable.installed', 'World.events', 'World.deleted', 'Acc.assigned']
+for _q, _c in M.contracts.items():
+    if _q.endswith('ActionWalker.accept') or (not _c.trusted and 'self.trace' in _c.modifies):
+        _c.modifies = list(_c.modifies) + [e for e in EFFECTS if e not in _c.modifies]
